@@ -51,15 +51,20 @@ class Ctx:
         """kill(fact, ev) for must-facts about module state."""
         def kill(fact, ev):
             a = fact[0]
-            if ("m_mod_is(" in a or "->state" in a) and self.kills_state(ev):
-                return True
+            if ("m_mod_is(" in a or "->state" in a):
+                if self.kills_state(ev):
+                    return True
+                if ev.kind == "assign":
+                    l = strip(ev.lhs)
+                    if l is not None and l["k"] == "member" and l["field"] == "state" and l.get("rec") == "_mod":
+                        return True
             return False
         return kill
 
-    def facts(self, fn, ev, kill=None):
-        key = (fn.key, "k" if kill else "n")
+    def facts(self, fn, ev, kill=None, passed=False):
+        key = (fn.key, "k" if kill else "n", passed)
         if key not in self.cache:
-            self.cache[key] = rules.mustfacts(fn, kill)
+            self.cache[key] = rules.mustfacts(fn, kill, passed=passed)
         IN, tr = self.cache[key]
         return fn.state_before(IN, ev, tr)
 
@@ -70,6 +75,13 @@ class Ctx:
             (("m_mod_is(%s, %d)" % (var, self.ZOMBIE), False), -13),  # not a ZOMBIE   -EACCES
             (("(%s->ctx == m_ctx())" % var, True), -1),           # same thread    -EPERM
         ]
+
+
+def EQ(expr, value):
+    """(atom, polarity) the normaliser produces for `expr == value`."""
+    if value == 0:
+        return (expr, False)
+    return ("(%s == %d)" % (expr, value), True)
 
 
 def has(facts, atom, pol=True):
@@ -89,3 +101,39 @@ def fmt_facts(facts):
     if facts is None:
         return "<unreachable>"
     return "{" + ", ".join(("" if p else "!") + a for a, p in sorted(facts)) + "}"
+
+
+def check_guarded_entry(ck, X, fn, rule, needed, what, effect_filter=None):
+    """Every effect event of fn has the `needed` atoms [(atom,pol),retval] as must-facts (assignment kills only),
+    and each atom's bail-out returns the stated value."""
+    eff = X.effects()
+    evs = [ev for ev in fn.events() if eff.is_effect(ev) and (effect_filter is None or effect_filter(ev))]
+    ok = True
+    for (atom, pol), rv in needed:
+        site = fn.site("%s%s" % ("" if pol else "!", atom))
+        gs = guard_retvals(fn, atom, pol)
+        if not gs:
+            ck.ob(rule, site, False, "%s: no bail-out guard establishes %s%s" % (what, "" if pol else "!", atom))
+            ok = False
+            continue
+        bad_rv = [g for g in gs if rv is not None and g.retval != rv]
+        missing = [ev for ev in evs if not has(X.facts(fn, ev, passed=True), atom, pol)]
+        # effects inside the bail-out arm itself are not allowed either
+        dirty = [g for g in gs if g.effects_in_bail]
+        if missing:
+            ev = missing[0]
+            ck.ob(rule, site, False, "%s: effect '%s' at line %d is reachable without the guard (facts %s)"
+                  % (what, S(ev.e) if ev.kind != "decl" else ev.e.get("name"), ev.line, fmt_facts(X.facts(fn, ev, passed=True))))
+            ok = False
+        elif bad_rv:
+            ck.ob(rule, site, False, "%s: failing edge at line %d returns %s, documented %s" % (what, bad_rv[0].line, bad_rv[0].retval, rv))
+            ok = False
+        elif dirty:
+            ck.ob(rule, site, False, "%s: failing edge at line %d performs an effect before returning" % (what, dirty[0].line))
+            ok = False
+        else:
+            ck.ob(rule, site, True, "%s: guard at line %d dominates all %d effect(s), fails with %s" % (what, gs[0].line, len(evs), gs[0].retval),
+                  witness=[("drop_branch", fn.unit, fn.name, g.block) for g in gs])
+    return ok
+
+
